@@ -163,6 +163,10 @@ func panicSite(stack string) string {
 			if strings.Contains(line, ".func") && (m[3] == "parseFile" || m[3] == "ParseExprFrom" || m[3] == "ParseExprEx") {
 				continue // the deferred recover of the entry point re-panics: not the site
 			}
+			recv := strings.TrimSuffix(strings.TrimPrefix(strings.TrimPrefix(m[2], "(*"), "("), ").")
+			if recv != "" && recv != "parser" && recv != "Scanner" {
+				return m[1] + "." + recv + "." + m[3]
+			}
 			return m[1] + "." + m[3]
 		}
 	}
